@@ -1481,3 +1481,8 @@ if os.path.basename(sys.argv[0]) == "worker.py":
         _warmup()
     except Exception:       # noqa  (a broken tree must surface as case results, not as a dead worker)
         pass
+
+
+# the translated kernel of this property (`fast_csv_reader`, Gen/Kernels.lean) is run against the real compiled kernel as well
+from checks.harness import genkernels  # noqa: E402
+genkernels.install(globals(), "C05")
